@@ -80,6 +80,11 @@ class Prov:
         self._exact = {}      # id(path node) -> component or None
         self._macro = {}      # id(macro node) -> [(text, roots)]
         self._keep = []       # keep queried nodes alive (ids stay unique)
+        self._init = {}       # id(path node) -> initialiser expression of the (never re-assigned) binding the path refers to, or None
+        self._pid = {}        # id(path node) -> the `pident` pattern node that introduced the binding the path refers to
+        self._macro_env = {}  # id(macro node) -> [{identifier: (roots, exact, init, pident)}] per argument
+        self.consts = {}      # name -> value expression of `const` items (set by the caller: P.consts = const_items(...))
+        self._mutated = _assigned_names(body or [])
         for i, p in enumerate(params or []):
             self._bind(p, frozenset([(i,)]), (i,))
         self._block(body or [], new_scope=False)
@@ -91,23 +96,24 @@ class Prov:
                 return sc[name]
         return None
 
-    def _set(self, name, roots, exact):
+    def _set(self, name, roots, exact, init=None, pident=None):
         self.locals.add(name)
-        self.scopes[-1][name] = (frozenset(roots), exact)
+        self.scopes[-1][name] = (frozenset(roots), exact, None if name in self._mutated else init, pident)
         if exact is not None:
             self.bound.setdefault(exact, []).append(name)
 
-    def _bind(self, pat, roots, exact):
-        """bind the names of a pattern to a value with the given roots; `exact` (a component or None) is projected through tuple patterns"""
+    def _bind(self, pat, roots, exact, init=None):
+        """bind the names of a pattern to a value with the given roots; `exact` (a component or None) is projected through tuple patterns;
+        `init` is the expression the WHOLE pattern is bound to (kept only for a plain identifier pattern: `let x = init`)"""
         if not is_node(pat):
             return
         t = pat[0]
         if t == "pident":
-            self._set(pat[1], roots, exact)
+            self._set(pat[1], roots, exact, init, pat)
             if pat[4]:
                 self._bind(pat[4], roots, exact)
         elif t == "ptype":
-            self._bind(pat[1], roots, exact)
+            self._bind(pat[1], roots, exact, init)
         elif t == "pref":
             self._bind(pat[2], roots, exact)
         elif t == "ptuple":
@@ -146,7 +152,7 @@ class Prov:
                         self._expr(st[3])
                 else:
                     roots, ex = frozenset(), None
-                self._bind(st[1], roots, ex)
+                self._bind(st[1], roots, ex, init)
                 r = frozenset()
             elif st[0] == "expr":
                 r = self._expr(st[1])
@@ -190,6 +196,8 @@ class Prov:
             self._keep.append(e)
             self._roots[id(e)] = v[0] if v else frozenset()
             self._exact[id(e)] = v[1] if v else None
+            self._init[id(e)] = v[2] if v else None
+            self._pid[id(e)] = v[3] if v else None
             return self._roots[id(e)]
         if t == "struct" and len(e) == 4 and isinstance(e[1], str):
             r = frozenset()
@@ -203,16 +211,21 @@ class Prov:
         if t == "macro":
             args = []
             r = frozenset()
+            envs = []
             for a in split_top(e[2] or ""):
                 ar = frozenset()
+                env = {}
                 for name in text_idents(a):
                     v = self._lookup(name)
                     if v:
                         ar |= v[0]
+                        env[name] = v
                 args.append((a, ar))
+                envs.append(env)
                 r |= ar
             self._keep.append(e)
             self._macro[id(e)] = args
+            self._macro_env[id(e)] = envs
             return r
         if t == "let":      # statement met outside a block list
             return self._block([e], new_scope=False)
@@ -227,7 +240,7 @@ class Prov:
             return r2 | r3                    # data flow only: the condition is control dependence
         if t == "letc":
             r = self._expr(e[2])
-            self._bind(e[1], r, self._exact_of(e[2]))
+            self._bind(e[1], r, self._exact_of(e[2]), e[2])
             return r
         if t == "match":
             r = self._expr(e[1])
@@ -235,7 +248,7 @@ class Prov:
             out = frozenset()
             for arm in e[2]:
                 self.scopes.append({})
-                self._bind(arm[0], r, ex)
+                self._bind(arm[0], r, ex, e[1])
                 if arm[1] is not None:
                     self._expr(arm[1])
                 out |= self._expr(arm[2])
@@ -282,7 +295,7 @@ class Prov:
                     if base[1] in sc:
                         old = sc[base[1]]
                         strong = t == "assign" and lhs is base
-                        sc[base[1]] = (frozenset(r) if strong and len(self.scopes) == 1 else old[0] | r, None)
+                        sc[base[1]] = (frozenset(r) if strong and len(self.scopes) == 1 else old[0] | r, None, None, old[3] if len(old) > 3 else None)
                         break
             return frozenset()
         r = frozenset()
@@ -294,12 +307,25 @@ class Prov:
     # ---- queries (on nodes of the traversed body)
     def roots(self, e):
         r = frozenset()
-        for n in walk(e):
-            if n[0] == "path":
-                r |= self._roots.get(id(n), frozenset())
-            elif n[0] == "macro":
-                for _, ar in self._macro.get(id(n), []):
-                    r |= ar
+        st = [e]
+        while st:
+            n = st.pop()
+            if not isinstance(n, list):
+                if isinstance(n, dict):
+                    st.extend(v for v in n.values() if isinstance(v, (list, dict)))
+                continue
+            if is_node(n):
+                if n[0] == "path":
+                    r |= self._roots.get(id(n), frozenset())
+                elif n[0] == "macro":
+                    for _, ar in self._macro.get(id(n), []):
+                        r |= ar
+                elif n[0] == "field" and len(n) == 3:
+                    ex = self.exact(n)
+                    if ex is not None:      # a member of a parameter reached by member access is that component, not the whole parameter
+                        r |= frozenset([ex])
+                        continue
+            st.extend(x for x in n if isinstance(x, (list, dict)))
         return r
 
     def exact(self, e):
@@ -319,6 +345,82 @@ class Prov:
     def macro_args(self, m):
         return self._macro.get(id(m), [])
 
+    # ---- following a value through named locals / constants (all on nodes of the traversed body)
+    def init(self, e):
+        """the initialiser expression of the local that the path node `e` refers to (`let x = <init>`; None for parameters, pattern components
+        and locals that are assigned to anywhere in the body)"""
+        return self._init.get(id(e)) if is_node(e) and e[0] == "path" else None
+
+    def origin(self, e, depth=12):
+        """the `pident` pattern node of the binding a path ultimately denotes, looking through `let y = x;` / `let y = &x;` / `x.clone()` chains
+        (identity of a binding, independent of its spelling and of helper parameters a value was handed through)"""
+        e = _peel(e)
+        while depth > 0 and is_node(e) and e[0] == "path":
+            depth -= 1
+            i = _peel(self._init.get(id(e)))
+            if is_node(i) and i[0] == "path" and id(i) in self._pid and self._pid[id(i)] is not None:
+                e = i
+                continue
+            break
+        return self._pid.get(id(e)) if is_node(e) and e[0] == "path" else None
+
+    def resolve(self, e, depth=12):
+        """`e` with named locals / constants looked through: the expression that computes the value (`radix` -> `16` after `let radix = RADIX_HEX;`
+        with `const RADIX_HEX: u32 = 16`); stops at parameters, pattern components and anything that is not a plain name"""
+        while depth > 0:
+            depth -= 1
+            e = _peel(e)
+            if not (is_node(e) and e[0] == "path" and isinstance(e[1], str)):
+                break
+            i = self._init.get(id(e))
+            if i is not None:
+                e = i
+                continue
+            if self._pid.get(id(e)) is None and e[1].split("::")[-1] in self.consts and e[1].split("::")[-1] not in self.locals:
+                e = self.consts[e[1].split("::")[-1]]
+                continue
+            break
+        return e
+
+    def sel_roots(self, e, depth=8):
+        """components that influence the value of `e`: its data roots plus, through the initialisers of the locals it mentions, the roots of the
+        conditions that select among alternatives (`let s = if neg { "-" } else { "" }` is influenced by what `neg` is computed from)"""
+        r = set(self.roots(e))
+        if depth <= 0:
+            return frozenset(r)
+        for n in walk(e):
+            if n[0] == "path":
+                i = self._init.get(id(n))
+                if i is not None:
+                    r |= self.sel_roots(i, depth - 1)
+            elif n[0] == "macro":
+                for env in self._macro_env.get(id(n), []):
+                    for v in env.values():
+                        if v[2] is not None:
+                            r |= self.sel_roots(v[2], depth - 1)
+        return frozenset(r)
+
+    def macro_sel_roots(self, m):
+        """[influencing components of argument i] for the arguments of a format-like macro (see sel_roots)"""
+        out = []
+        for (text, roots), env in zip(self._macro.get(id(m), []), self._macro_env.get(id(m), [])):
+            r = set(roots)
+            for v in env.values():
+                if v[2] is not None:
+                    r |= self.sel_roots(v[2])
+            out.append(frozenset(r))
+        return out
+
+    def used_components(self, body):
+        """components of the parameters that the body refers to exactly: bound to a local of their own or reached by member access"""
+        out = set(self.bound)
+        for n in walk(body):
+            if n[0] in ("field", "path"):
+                c = self.exact(n)
+                if c is not None:
+                    out.add(c)
+        return out
+
     def shape(self, e):
         """rendering of e with every local variable replaced by `_` (for report keys: identical under renaming of locals)"""
         from lib.facts import render
@@ -329,11 +431,58 @@ class Prov:
                     return ["path", "_"]
                 if n[0] == "macro":
                     return [n[0], n[1], "..", ".."]
+                if n[0] == "pident":
+                    return ["pident", "_"] + [sub(x) for x in n[2:]]
+                if n[0] == "block" and len(n) > 2 and isinstance(n[2], str) and n[2].startswith("inlined:") and n[1] and is_node(n[1][-1]) and n[1][-1][0] == "expr":
+                    return sub(n[1][-1][1])         # the body of an inlined helper: its value (the key does not depend on where the code was moved to)
                 return [sub(x) for x in n]
             if isinstance(n, list):
                 return [sub(x) for x in n]
             return n
         return render(sub(e))
+
+
+def _peel(e):
+    """strip parentheses, references, dereferences and copying method calls"""
+    while is_node(e):
+        if e[0] == "paren":
+            e = e[1]
+        elif e[0] == "ref" or (e[0] == "un" and e[1] == "*"):
+            e = e[2]
+        elif e[0] == "mcall" and e[2] in _COPY_METHODS and not e[4]:
+            e = e[1]
+        elif e[0] == "block" and len(e[1]) == 1 and is_node(e[1][0]) and e[1][0][0] == "expr":
+            e = e[1][0][1]
+        else:
+            break
+    return e
+
+
+def _assigned_names(body):
+    """names of locals that are the target of an assignment / compound assignment anywhere in the body (their initialiser is not their value)"""
+    out = set()
+    for n in walk(body):
+        lhs = None
+        if n[0] == "assign":
+            lhs = n[1]
+        elif n[0] == "bin" and isinstance(n[1], str) and n[1].endswith("=") and n[1] not in ("==", "<=", ">=", "!="):
+            lhs = n[2]
+        elif n[0] == "ref" and n[1]:          # `&mut x`: may be written through
+            lhs = n[2]
+        while is_node(lhs) and lhs[0] in ("field", "index", "un"):
+            lhs = lhs[1] if lhs[0] != "un" else lhs[2]
+        if is_node(lhs) and lhs[0] == "path" and isinstance(lhs[1], str):
+            out.add(lhs[1])
+    return out
+
+
+def const_items(items, mod_suffix=None):
+    """{name: value expression} of the `const` items of a crate's syn facts (of the modules whose path ends with mod_suffix)"""
+    out = {}
+    for it in items:
+        if it.get("k") == "const" and it.get("val") is not None and (mod_suffix is None or (it.get("mod") or "").endswith(mod_suffix)):
+            out.setdefault(it["name"], it["val"])
+    return out
 
 
 def param_names(item, type_rx=None):
